@@ -643,6 +643,24 @@ func (in *Interp) join(cond string, a, b *State) *State {
 		n.bufs[id] = j
 		n.vars[p.k] = BufV{ID: id, Off: Const(0)}
 	}
+	// paths filled by a child decoder on either arm stay unknown (never zero)
+	seenD := map[string]bool{}
+	for _, d := range append(append([]string(nil), a.decoded...), b.decoded...) {
+		if !seenD[d] {
+			seenD[d] = true
+			n.decoded = append(n.decoded, d)
+		}
+	}
+	if a.ensures != nil && b.ensures != nil {
+		for k, v := range a.ensures {
+			if _, ok := b.ensures[k]; ok {
+				if n.ensures == nil {
+					n.ensures = map[string][]Fact{}
+				}
+				n.ensures[k] = v
+			}
+		}
+	}
 	// facts: those present on both arms stay; those of one arm become conditional
 	// on the branch (used by the prover's case split on ite(cond ? … : …) values)
 	inList := func(f Fact, l []Fact) bool {
@@ -727,12 +745,61 @@ func joinVal(cond string, a, b Val) Val {
 		if _, ok := b.(NilV); ok {
 			return MaybeV{cond, av}
 		}
+		if bv, ok := b.(ObjV); ok && av.Type != nil && bv.Type != nil {
+			return AltV{Alts: []ObjV{av, bv}}
+		}
+		if bv, ok := b.(AltV); ok {
+			return bv.with(av)
+		}
+		if bv, ok := b.(MaybeV); ok {
+			return AltV{Alts: []ObjV{av, bv.V}, MayNil: true}
+		}
+	case AltV:
+		switch bv := b.(type) {
+		case ObjV:
+			return av.with(bv)
+		case NilV:
+			return AltV{Alts: av.Alts, MayNil: true}
+		case MaybeV:
+			r := av.with(bv.V)
+			r.MayNil = true
+			return r
+		case AltV:
+			r := av
+			for _, o := range bv.Alts {
+				r = r.with(o)
+			}
+			r.MayNil = av.MayNil || bv.MayNil
+			return r
+		}
+	case MaybeV:
+		switch bv := b.(type) {
+		case ObjV:
+			return AltV{Alts: []ObjV{av.V, bv}, MayNil: true}
+		case AltV:
+			r := bv.with(av.V)
+			r.MayNil = true
+			return r
+		case NilV:
+			return av
+		case MaybeV:
+			if av.V.Path == bv.V.Path {
+				return av
+			}
+			return AltV{Alts: []ObjV{av.V, bv.V}, MayNil: true}
+		}
 	case NilV:
 		if _, ok := b.(NilV); ok {
 			return av
 		}
 		if bv, ok := b.(ObjV); ok {
 			return MaybeV{negCond(cond), bv}
+		}
+		if bv, ok := b.(AltV); ok {
+			return AltV{Alts: bv.Alts, MayNil: true}
+		}
+		if bv, ok := b.(MaybeV); ok {
+			return bv
 		}
 	case SliceV:
 		if bv, ok := b.(SliceV); ok && av.Path == bv.Path && len(av.Elems) == len(bv.Elems) {
@@ -751,6 +818,48 @@ type MaybeV struct {
 }
 
 func (m MaybeV) valString() string { return "maybe(" + m.Cond + ":" + m.V.Path + ")" }
+
+// AltV is one of several objects (a dispatcher's result after the join of its
+// cases), possibly nil.
+type AltV struct {
+	Alts   []ObjV
+	MayNil bool
+}
+
+func (a AltV) valString() string {
+	var ps []string
+	for _, o := range a.Alts {
+		ps = append(ps, o.Path)
+	}
+	s := "oneof(" + strings.Join(ps, "|") + ")"
+	if a.MayNil {
+		s += "?"
+	}
+	return s
+}
+
+func (a AltV) with(o ObjV) AltV {
+	for _, x := range a.Alts {
+		if x.Path == o.Path {
+			return a
+		}
+	}
+	return AltV{Alts: append(append([]ObjV(nil), a.Alts...), o), MayNil: a.MayNil}
+}
+
+// kinds lists the concrete kinds of the alternatives ("" when one is unknown).
+func (a AltV) kinds(w *World) []string {
+	var ks []string
+	for _, o := range a.Alts {
+		k := w.KindOfType(o.Type)
+		if k == nil {
+			return nil
+		}
+		ks = append(ks, k.Name)
+	}
+	sort.Strings(ks)
+	return ks
+}
 
 // JoinBufV is one of two buffers depending on a branch.
 type JoinBufV struct {
@@ -1499,10 +1608,7 @@ func (in *Interp) execFor(st *State, x *ast.ForStmt, label string) (*State, bool
 			nv, ok := bs.vars[o].(IntV)
 			grows := false
 			if ok {
-				grows, _ = Prove(sym.AddC(1), nv.T, bs.facts)
-				if !grows {
-					grows, _ = Prove(in.w.ExpandLens(sym.AddC(1), 0), in.w.ExpandLens(nv.T, 0), expandFacts(in.w, bs.facts))
-				}
+				grows = in.w.ProveX(sym.AddC(1), nv.T, bs.facts)
 			}
 			if !grows {
 				cp.Strict = false
@@ -1701,8 +1807,97 @@ func (w *World) ProveX(a, b *Term, facts []Fact) bool {
 	if ok, _ := Prove(a, b, facts); ok {
 		return true
 	}
-	ok, _ := Prove(w.ExpandLens(a, 0), w.ExpandLens(b, 0), expandFacts(w, facts))
+	ea, eb, ef := w.ExpandLens(a, 0), w.ExpandLens(b, 0), expandFacts(w, facts)
+	if ok, _ := Prove(ea, eb, ef); ok {
+		return true
+	}
+	// sizes of interface-typed values: at least the smallest size any implementation can report
+	extra := w.lenFloorFacts(ea, eb)
+	if len(extra) == 0 {
+		return false
+	}
+	ok, _ := Prove(ea, eb, append(ef, extra...))
 	return ok
+}
+
+// lenFloorFacts returns, for every Len atom of an interface type (or of a
+// one-of value) in the terms, the fact floor <= Len where floor is the
+// smallest lower bound over the kinds it can be (closed world).
+func (w *World) lenFloorFacts(ts ...*Term) []Fact {
+	var out []Fact
+	seen := map[string]bool{}
+	for _, t := range ts {
+		t.HasAtom(func(a *Atom) bool {
+			if a.Kind != "Len" || seen[a.Key()] {
+				return false
+			}
+			seen[a.Key()] = true
+			if fl, why, ok := w.lenFloor(a.Typ); ok && fl > 0 {
+				out = append(out, Fact{L: Const(fl), R: FromAtom(a), Src: why})
+			}
+			return false
+		})
+	}
+	return out
+}
+
+func (w *World) lenFloor(typ string) (int64, string, bool) {
+	if w.floorCache == nil {
+		w.floorCache = map[string][2]any{}
+	}
+	if c, ok := w.floorCache[typ]; ok {
+		return c[0].(int64), c[1].(string), true
+	}
+	var kinds []*Kind
+	switch {
+	case strings.HasPrefix(typ, "oneof:"):
+		for _, n := range strings.Split(strings.TrimPrefix(typ, "oneof:"), "|") {
+			k := w.Kinds[n]
+			if k == nil {
+				return 0, "", false
+			}
+			kinds = append(kinds, k)
+		}
+	default:
+		i := strings.LastIndex(typ, ".")
+		if i < 0 {
+			return 0, "", false
+		}
+		p := w.ByName[typ[:i]]
+		if p == nil {
+			return 0, "", false
+		}
+		tn, _ := p.Types.Scope().Lookup(typ[i+1:]).(*types.TypeName)
+		if tn == nil {
+			return 0, "", false
+		}
+		iface, ok := tn.Type().Underlying().(*types.Interface)
+		if !ok {
+			return 0, "", false
+		}
+		kinds = w.Implementations(iface)
+	}
+	if len(kinds) == 0 {
+		return 0, "", false
+	}
+	min := int64(-1)
+	minK := ""
+	for _, k := range kinds {
+		ls := w.LenSummary(k)
+		if ls == nil || ls.Term == nil {
+			return 0, "", false
+		}
+		lb, ok := w.ExpandLens(ls.Term, 0).LowerBound()
+		if !ok {
+			lb = 0
+		}
+		if min < 0 || lb < min {
+			min, minK = lb, k.Name
+		}
+	}
+	why := fmt.Sprintf("smallest size among the %d kinds a %s can be (%s)", len(kinds), typ, minK)
+	w.floorCache[typ] = [2]any{min, why}
+	return min, why, true
 }
 
 func identObjOf(in *Interp, e ast.Expr) types.Object {
